@@ -271,7 +271,7 @@ for f in formats:
     all_tables.append(f['name'])
 
 # ---- new API: public functions that did not exist when the drivers were written (not in bindings/baseline_api.txt).
-# Those that take no pointer at all (mode switches, option setters, queries) can be called without knowing any precondition:
+# Those that take no pointer at all (mode switches, option setters, queries, name look-ups) can be called without knowing any precondition:
 # they get a thunk each and are exercised by the re-entrancy engine. The others are only reported.
 import glob as _glob
 base_path = os.path.join(os.path.dirname(os.path.abspath(__file__)), '..', 'bindings', 'baseline_api.txt')
@@ -288,12 +288,19 @@ if baseline is not None:
             if name in baseline or any(name == r[0] for r in extra_rows) or name in new_uncallable:
                 continue
             params = [a.strip() for a in args.split(',')] if args.strip() and args.strip() != 'void' else []
-            ptr = any('*' in a or '[' in a for a in params) or bool(re.search(r'\*\s*' + re.escape(name), m.group(0)))
+            ptr = any('*' in a or '[' in a for a in params)
+            retptr = '*' in ret or bool(re.search(r'\*\s*' + re.escape(name), m.group(0)))
             scalar = all((a.replace('const', ' ').split() or ['int'])[0] in INT_TYPES or a.split()[0].endswith('_t') for a in params)
             if not ptr and scalar and len(params) <= 4 and 'struct' not in args:
                 k = len(extra_rows)
                 call = '%s(%s)' % (name, ', '.join('(%s)%s' % (a.rsplit(' ', 1)[0] if ' ' in a else a, 'abcd'[i]) for i, a in enumerate(params)))
-                body = ('%s; return 0;' % call) if ret.split()[-1] == 'void' and '*' not in ret else 'return (uint64_t)%s;' % call
+                if retptr and 'char' in ret:  # a returned string: what the caller reads through it is the result
+                    body = ('const char *r_ = (const char *)%s; uint64_t h_ = 1469598103934665603ULL; int i_; if (!r_) return 0; '
+                            'for (i_ = 0; i_ < 256 && r_[i_]; i_++) h_ = (h_ ^ (unsigned char)r_[i_]) * 1099511628211ULL; return h_;' % call)
+                elif retptr:     # any other returned pointer: only whether there is one (its value may legitimately differ from run to run)
+                    body = 'return (uint64_t)(%s != NULL);' % call
+                else:
+                    body = ('%s; return 0;' % call) if ret.split()[-1] == 'void' else 'return (uint64_t)%s;' % call
                 extra_code.append('static uint64_t e_%d(uint64_t a, uint64_t b, uint64_t c, uint64_t d) { (void)a; (void)b; (void)c; (void)d; %s }' % (k, body))
                 extra_rows.append((name, 'e_%d' % k, len(params)))
                 if rel not in extra_hdrs:
